@@ -81,6 +81,7 @@ def verdictOf (q : List Segment) : Verdict :=
   else if !Spec.wtSegs q then .invalid
   else if !f.fnNames.isEmpty then .custom
   else if !f.litInts.all inRange then .unjudged
+  else if !f.litFloats.all (fun nd => f64Finite nd.1 nd.2) then .unjudged
   else .valid
 
 def rank : Verdict → Nat | .valid => 3 | .custom => 2 | .unjudged => 1 | .invalid => 0
